@@ -13,8 +13,8 @@ from vf.common import Sub, require, expect_raises
 PROPERTY = "C11"
 RULE = ("Generated op programs (model-based testing, the whole program shrinks as one value): 1-3 models (three state types, "
         "n 1..4, nh/na 1..4 drawn independently of n, non-zero biases, default or user-extended unitary dictionary), 1-3 metadata "
-        "objects (None, {}, flat, nested lists/dicts/tuples, tensor-valued), 1-3 files; ops = randomise | train one epoch | save | "
-        "save again with the SAME metadata object | load into a fresh compatible model | autoload | save with a reserved key | "
+        "objects (None, {}, flat, nested lists/dicts/tuples, tensor-valued), 1-3 files; ops = randomise in place | reinitialise (new parameter objects) | train one epoch | save | "
+        "save again with the SAME metadata object | load into a compatible model (fresh / fresh with an extra user unitary / already used) | autoload | save with a reserved key | "
         "2-epoch fit with a ModelSaver whose metadata is that same dict. Model oracle: python dict file -> (type, parameter clones, "
         "unitary-dict clones, deep copy of the metadata). Invariants after every op: saving changes neither parameters, unitary "
         "dict nor the metadata object; the file holds exactly networks + metadata (+ unitary_dict); load/autoload give torch.equal "
@@ -69,10 +69,12 @@ def programs(draw, tier):
     nfiles = draw(st.integers(1, 3))
     ops = []
     for _ in range(draw(st.integers(2, 12 if tier == "quick" else 24))):
-        kind = draw(st.sampled_from(["save", "save", "save_again", "load", "autoload", "randomise", "train", "reserved", "model_saver"]))
+        kind = draw(st.sampled_from(["save", "save", "save_again", "load", "load", "autoload", "randomise", "reinit", "train", "reserved", "model_saver"]))
         op = {"op": kind, "m": draw(st.integers(0, len(models) - 1)), "f": draw(st.integers(0, nfiles - 1)), "md": draw(st.integers(0, len(metas) - 1))}
         if kind == "reserved":
             op["key"] = draw(st.sampled_from(["rbm_am", "rbm_ph", "unitary_dict"]))
+        if kind == "load":
+            op["target"] = draw(st.sampled_from(["fresh", "fresh_extra_unitary", "used"]))
         if kind in ("train", "model_saver", "randomise"):
             op["seed"] = draw(st.integers(0, 2 ** 31 - 1))
         ops.append(op)
@@ -105,14 +107,25 @@ def tiny_data(state, n):
     return data, bases
 
 
-def fresh_like(spec):
+def fresh_like(spec, how="fresh"):
+    """A compatible load target: freshly built; or built with a user dictionary holding an extra key 'R' (load must REPLACE
+    the dictionary, not merge into it); or already 'used' (evaluated and saved once before the load)."""
     from qucumber.nn_states import ComplexWaveFunction, DensityMatrix, PositiveWaveFunction
+    from qucumber.utils import unitaries
     t, n, nh = spec["type"], spec["n"], spec["nh"]
+    ud = unitaries.create_dict(R=R.c_to_lib(R.unitary_from_angles(0.3, -0.2, 0.7, 0.1))) if how == "fresh_extra_unitary" else None
     if t == "positive":
-        return PositiveWaveFunction(n, nh, gpu=False)
-    if t == "complex":
-        return ComplexWaveFunction(n, nh, gpu=False)
-    return DensityMatrix(n, nh, spec["na"], gpu=False)
+        s = PositiveWaveFunction(n, nh, gpu=False)
+    elif t == "complex":
+        s = ComplexWaveFunction(n, nh, unitary_dict=ud, gpu=False)
+    else:
+        s = DensityMatrix(n, nh, spec["na"], unitary_dict=ud, gpu=False)
+    if how == "used":
+        sp = s.generate_hilbert_space()
+        s.normalization(sp); s.probability(sp); s.sample(1, num_samples=2)
+        import io
+        s.save(io.BytesIO())
+    return s
 
 
 def check(case):
@@ -140,6 +153,9 @@ def check(case):
                         p.data.copy_(torch.randn_like(p))
                 if spec["type"] == "density":
                     state.rbm_ph.aux_bias.data.zero_()
+            elif kind == "reinit":
+                state.reinitialize_parameters()      # creates NEW parameter objects (unlike the in-place 'randomise')
+                labels.add("reinit")
             elif kind == "train":
                 qucumber.set_random_seed(op["seed"], cpu=True, gpu=False, quiet=True)
                 data, bases = tiny_data(state, spec["n"])
@@ -175,8 +191,9 @@ def check(case):
                     continue
                 rec = files[fj]
                 if kind == "load":
-                    tgt = fresh_like(rec["spec"])
+                    tgt = fresh_like(rec["spec"], op.get("target", "fresh"))
                     tgt.load(path(fj))
+                    labels.add("load_target=" + op.get("target", "fresh"))
                 else:
                     tgt = cls[rec["spec"]["type"]].autoload(path(fj), gpu=False)
                     s_ = rec["spec"]
